@@ -119,4 +119,18 @@ theorem CG1_roundtrip (s t : Computer.State1) (h : CG1_WF s) :
 example : CG1_WF { base := { csdw := 0, payload := [1, 2] }, frmt := 1, srcc := 0, rccver := 0xE } := by
   simp [CG1_WF]
 
+/-! ### review additions (rev1-C04) -/
+
+/-- outside `CG1_WF` (why it demands `7 ≤ rccver ≤ 14`): `pack` writes any 8-bit version, the decoder's
+    enum turns a value it does not know into IRIG 106-07 (7) — version 3 comes back as 7; and a `frmt`
+    of 2 is ADDED into bit 10, outside the field, and comes back as 0 -/
+example : ∃ b, (⟨⟨0, [1]⟩, 1, 1, 3⟩ : Computer.State1).pack.2 = .ok b ∧
+    (Computer.State1.unpack Computer.State1.fresh b).1.rccver = 7 ∧
+    (Computer.State1.unpack Computer.State1.fresh b).1.frmt = 1 := by
+  refine ⟨_, rfl, by decide, by decide⟩
+
+example : ∃ b, (⟨⟨0, [1]⟩, 2, 0, 7⟩ : Computer.State1).pack.2 = .ok b ∧
+    (Computer.State1.unpack Computer.State1.fresh b).1.frmt = 0 := by
+  refine ⟨_, rfl, by decide⟩
+
 end Acra.Props.C04
